@@ -69,6 +69,8 @@ def run(ctx):
     ctx.need('C07.R1', 28)
     from checks.recordloop import check_raw_record_fields
     check_raw_record_fields(ctx, 'C07.R1', rl)
+    from checks.recordloop import check_membership_params_materialised
+    check_membership_params_materialised(ctx, 'C07.R3', rl)
     # element derived only from the name columns (all definitions)
     el_defs = [s for s in walk_no_nested(sp) if isinstance(s, ast.Assign)
                and norm(s.targets[0]) == 'self.element']
@@ -114,8 +116,9 @@ def run(ctx):
             if any(rl.slice_of(s) == (0, 6) for s in sides):
                 n_tag += 1
                 for s in sides:
-                    if isinstance(s, ast.Constant) and s.value not in ('MODEL ', 'TER   ', 'ATOM  ',
-                                                                       'HETATM'):
+                    if isinstance(s, ast.Constant) and not (
+                            isinstance(s.value, str)
+                            and s.value.strip() in ('MODEL', 'TER', 'ATOM', 'HETATM')):
                         bad.append(node)
                     if isinstance(s, ast.Name) and s.id not in tag_alias and s.id != rl.tags_param:
                         bad.append(node)
@@ -143,7 +146,8 @@ def run(ctx):
         if isinstance(stmt, ast.If):
             t = norm(stmt.test)
             ok = isinstance(stmt.test, ast.Compare) and any(
-                isinstance(c, ast.Constant) and c.value in ('MODEL ', 'TER   ')
+                isinstance(c, ast.Constant) and isinstance(c.value, str)
+                and c.value.strip() in ('MODEL', 'TER')
                 for c in stmt.test.comparators) and rl.slice_of(stmt.test.left) == (0, 6)
             ctx.ob('C07.R3', 'non-atom-branch:' + t, ok,
                    'a statement of the record loop outside the atom block runs only for MODEL/TER',
